@@ -336,6 +336,8 @@ def eval_adverb_scan_over(f, a, op, backend):
     """
     if is_atom(a):
         return a if is_empty(a) else backend.kg_asarray([a])
+    if isinstance(a,str):
+        return backend.kg_asarray(list(itertools.accumulate(backend.str_to_chr_arr(a), f)))
     # Use backend's ufunc accumulate when available for better performance
     np_backend = backend.np
     if isinstance(op, KGOp):
